@@ -2,7 +2,7 @@
 EXTENDS Payload
 ASSUME SchemaCovers
 Table == [t \in DOMAIN Modelled |-> [i \in 1..Len(Modelled[t]) |->
-             LET f == FieldOf(t, Modelled[t][i]) IN [attr |-> Modelled[t][i], num |-> f.num, wt |-> f.wt, kind |-> f.kind, sub |-> f.sub, rep |-> f.rep, ev |-> f.ev]]]
+             LET f == FieldOf(t, Modelled[t][i]) IN [attr |-> Modelled[t][i], num |-> f.num, wt |-> f.wt, kind |-> f.kind, bits |-> f.bits, sub |-> f.sub, rep |-> f.rep, ev |-> f.ev]]]
 ASSUME IF "DUMP_TABLE" \in DOMAIN IOEnv THEN PrintT(ToJson([table |-> Table])) ELSE TRUE
 ASSUME \A i \in 1..Len(Cases) : PrintT(ToJson(CaseOut(i)))
 VARIABLE x
